@@ -10,6 +10,7 @@ import re
 import unicodedata
 from collections.abc import Callable, Iterable, Iterator, MutableMapping, Sequence
 from contextlib import contextmanager, suppress
+from copy import deepcopy
 from datetime import date, datetime
 from types import ModuleType
 from typing import (
@@ -149,6 +150,8 @@ class DocutilsRenderer(RendererProtocol):
         self._heading_slugs: dict[str, tuple[int | None, str, str]] = {}
         # inventories are (lazily) loaded per render, from the render's configuration
         self._inventories = None
+        # the document's own copy of the configured substitutions (lazily created)
+        self._substitutions: None | dict[str, Any] = None
 
     @property
     def sphinx_env(self) -> BuildEnvironment | None:
@@ -1917,7 +1920,14 @@ class DocutilsRenderer(RendererProtocol):
         position = token_line(token)
 
         # front-matter substitutions take priority over config ones
-        variable_context: dict[str, Any] = {**self.md_config.substitutions}
+        # (each document works on its own copy: an expression must not be able to modify
+        # the configured values, which are shared by all documents parsed with them)
+        if self._substitutions is None:
+            try:
+                self._substitutions = deepcopy(self.md_config.substitutions)
+            except Exception:
+                self._substitutions = self.md_config.substitutions
+        variable_context: dict[str, Any] = {**self._substitutions}
         if self.sphinx_env is not None:
             variable_context["env"] = self.sphinx_env
 
